@@ -51,7 +51,7 @@ def set_determinants(propka_groups: List[Group], version: Version, options=None)
             if group1 is group2:
                 break
             # do not calculate interactions for coupled groups
-            if group2 in group1.covalently_coupled_groups:
+            if any(group2 is g for g in group1.covalently_coupled_groups):
                 break
             distance = propka.calculations.distance(group1, group2)
             if distance < version.parameters.coulomb_cutoff2:
